@@ -192,3 +192,154 @@ def cfg_claims(a):
     empty = dict(edges=[], nodes=[], exit=[], error=[], mirror=True, entryok=True,
                  sprev=[[] for _ in range(N)], snext=[[] for _ in range(N)], hprev=[], hnext=[])
     return [out.get(i + 1, empty) for i in range(len(a.p['fns']))]
+
+
+# ---------------------------------------------------------------------------------------------
+# dataflow claims: activity (per node), reaching definitions, liveness
+# ---------------------------------------------------------------------------------------------
+def _qn(q):
+    return str(q)
+
+
+def _idx(a, nid):
+    """Index into per-node arrays: node id n -> n, the arguments node (0) -> N+1."""
+    return a.N + 1 if nid == 0 else nid
+
+
+def _stmt_table(a):
+    """ast block statement -> MiniPy id (only If/While/For/Try)."""
+    return {s: k for s, k in try_ids(a).items() if isinstance(k, int)
+            and isinstance(s, (ast.If, ast.While, ast.For, ast.Try))}
+
+
+def dataflow_claims(a):
+    from malt.pyct import anno
+    from malt.pyct.static_analysis import annos
+    N = a.N
+    W = N + 1
+    fns = a.p['fns']
+
+    def blank():
+        return dict(
+            aread=[[] for _ in range(W)], amod=[[] for _ in range(W)], adel=[[] for _ in range(W)],
+            livein=[[] for _ in range(W)], liveout=[[] for _ in range(W)],
+            sin=[[] for _ in range(N)], sout=[[] for _ in range(N)], hassl=[0] * N,
+            defs=[[] for _ in range(N)], defin=[[] for _ in range(N)], hasdefin=[0] * N,
+            leq=[], req=[])
+    out = [blank() for _ in fns]
+
+    # ---- activity per CFG node -------------------------------------------------------------
+    for fnode, g in a.graphs.items():
+        fid = a.byname[fnode.name]
+        for cn in g.index.values():
+            nid = node_id(a, cn.ast_node)
+            if nid is None or not anno.hasanno(cn.ast_node, anno.Static.SCOPE):
+                continue
+            sc = anno.getanno(cn.ast_node, anno.Static.SCOPE)
+            i = _idx(a, nid) - 1
+            o = out[fid - 1]
+            o['aread'][i] = sorted(set(o['aread'][i]) | {_qn(q) for q in sc.read})
+            o['amod'][i] = sorted(set(o['amod'][i]) | {_qn(q) for q in sc.modified})
+            o['adel'][i] = sorted(set(o['adel'][i]) | {_qn(q) for q in sc.deleted})
+
+    # ---- liveness --------------------------------------------------------------------------
+    for an in a.live_analyzers:
+        fid = fid_of_graph(a, an.graph)
+        o = out[fid - 1]
+        order = list(an.graph.index.values())
+        pos = {cn: i + 1 for i, cn in enumerate(order)}
+        for cn in order:
+            nid = node_id(a, cn.ast_node)
+            if nid is not None:
+                i = _idx(a, nid) - 1
+                o['livein'][i] = sorted(_qn(q) for q in an.in_[cn])
+                o['liveout'][i] = sorted(_qn(q) for q in an.out[cn])
+            # equation table (uncontracted graph)
+            if anno.hasanno(cn.ast_node, anno.Static.SCOPE):
+                sc = anno.getanno(cn.ast_node, anno.Static.SCOPE)
+                gen = {_qn(q) for q in sc.read}
+                kill = {_qn(q) for q in (sc.modified | sc.deleted)}
+                clos = set()
+                for fn_ast in anno.getanno(cn.ast_node, anno.Static.DEFINED_FNS_IN):
+                    if isinstance(fn_ast, ast.Lambda):
+                        continue
+                    fs = anno.getanno(fn_ast, annos.NodeAnno.ARGS_AND_BODY_SCOPE)
+                    clos |= {_qn(q) for q in (fs.read - fs.bound)}
+            else:
+                gen, kill, clos = set(), set(), set()
+            o['leq'].append(dict(inn=sorted(_qn(q) for q in an.in_[cn]), out=sorted(_qn(q) for q in an.out[cn]),
+                                 gen=sorted(gen), kill=sorted(kill), clos=sorted(clos),
+                                 succ=sorted(pos[x] for x in cn.next)))
+    st = _stmt_table(a)
+    for s, k in st.items():
+        fid = a.p['nodes'][k - 1]['fn']
+        o = out[fid - 1]
+        if anno.hasanno(s, anno.Static.LIVE_VARS_OUT):
+            o['sout'][k - 1] = sorted(_qn(q) for q in anno.getanno(s, anno.Static.LIVE_VARS_OUT))
+            o['sin'][k - 1] = sorted(_qn(q) for q in anno.getanno(s, anno.Static.LIVE_VARS_IN))
+            o['hassl'][k - 1] = 1
+
+    # ---- reaching definitions ----------------------------------------------------------------
+    def2w = {}
+    for an in a.rd_analyzers:
+        fid = fid_of_graph(a, an.graph)
+        for cn, stt in an.gen_map.items():
+            nid = node_id(a, cn.ast_node)
+            w = -1 if nid is None else fid * 1000 + nid
+            for qn, ds in stt.value.items():
+                for d in ds:
+                    def2w[id(d)] = w
+    for an in a.rd_analyzers:
+        fid = fid_of_graph(a, an.graph)
+        o = out[fid - 1]
+        order = list(an.graph.index.values())
+        pos = {cn: i + 1 for i, cn in enumerate(order)}
+
+        def pairs(state):
+            return sorted([_qn(q), def2w.get(id(d), -2)] for q, ds in state.value.items() for d in ds)
+        for cn in order:
+            if anno.hasanno(cn.ast_node, anno.Static.SCOPE):
+                sc = anno.getanno(cn.ast_node, anno.Static.SCOPE)
+                kill = sorted({_qn(q) for q in (sc.modified | sc.deleted)})
+            else:
+                kill = []
+            gen = pairs(an.gen_map[cn]) if cn in an.gen_map else []
+            o['req'].append(dict(inn=pairs(an.in_[cn]), out=pairs(an.out[cn]), gen=gen, kill=kill,
+                                 pred=sorted(pos[x] for x in cn.prev)))
+
+    class V(ast.NodeVisitor):
+        def __init__(s):
+            s.stmt = None
+
+        def visit_Name(s, n):
+            if isinstance(n.ctx, ast.Load) and n.lineno in a.lm and anno.hasanno(n, anno.Static.DEFINITIONS):
+                idx = a.lm[n.lineno]
+                fid = a.p['nodes'][idx - 1]['fn']
+                ws = sorted({def2w.get(id(d), -2) for d in anno.getanno(n, anno.Static.DEFINITIONS)})
+                out[fid - 1]['defs'][idx - 1].append([n.id, ws])
+
+        def generic_visit(s, n):
+            if n in st and anno.hasanno(n, anno.Static.DEFINED_VARS_IN):
+                k = st[n]
+                fid = a.p['nodes'][k - 1]['fn']
+                out[fid - 1]['defin'][k - 1] = sorted(_qn(q) for q in anno.getanno(n, anno.Static.DEFINED_VARS_IN))
+                out[fid - 1]['hasdefin'][k - 1] = 1
+            super().generic_visit(n)
+    V().visit(a.tree)
+    # merge duplicate (name, defs) claims of one node
+    for o in out:
+        for i, lst in enumerate(o['defs']):
+            m = {}
+            for nm, ws in lst:
+                m.setdefault(nm, set()).update(ws)
+            o['defs'][i] = [[nm, sorted(ws)] for nm, ws in sorted(m.items())]
+    return out
+
+
+def all_claims(p):
+    a = analyse(p)
+    c = cfg_claims(a)
+    d = dataflow_claims(a)
+    for x, y in zip(c, d):
+        x.update(y)
+    return c
